@@ -28,14 +28,14 @@ CONSTANTS
 (***************************************************************************)
 ca == <<97>>   cb == <<98>>   cc == <<99>>   cd == <<100>>  ce == <<101>>
 ck == <<107>>  cq == <<113>>  cr == <<114>>  cs == <<115>>  cx == <<120>>  cy == <<121>>  cz == <<122>>
-N1    == Num("1", "1e0")
-N2    == Num("2", "2e0")
-N3    == Num("3", "3e0")
-N10   == Num("1.0", "1e0")
-NBig  == Num("12345678901234567890123", "12345678901234567890123e0")
-NE400 == Num("1e400", "1e400")
-NNeg0 == Num("-0", "0")
-N1E2  == Num("1E+2", "1e2")
+N1    == Num(<<49>>)      \* 1
+N2    == Num(<<50>>)      \* 2
+N3    == Num(<<51>>)      \* 3
+N10   == Num(<<49,46,48>>)      \* 1.0
+NBig  == Num(<<49,50,51,52,53,54,55,56,57,48,49,50,51,52,53,54,55,56,57,48,49,50,51>>)      \* 12345678901234567890123
+NE400 == Num(<<49,101,52,48,48>>)      \* 1e400
+NNeg0 == Num(<<45,48>>)      \* -0
+N1E2  == Num(<<49,69,43,50>>)      \* 1E+2
 SS    == Str(cs)
 SLt   == Str(<<60>>)                       \* "<"
 
